@@ -96,6 +96,19 @@ Definition int_time_to_micros (p : tparams) (n : Z) (f : tfmt) : Z :=
   | _ => auto_int p n
   end.
 
+(* mulMicrosChecked (fix b90d6d7): `if n > MaxInt64/mult || n < MinInt64/mult` (Go's truncating
+   division) rejects, otherwise n * mult *)
+Definition mul_checked (n mult : Z) : option Z :=
+  if (Z.quot (two63 - 1) mult <? n) || (n <? Z.quot (- two63) mult) then None else Some (n * mult).
+
+(* intTimeToMicrosChecked: the multiplying units are checked, everything else is intTimeToMicros *)
+Definition int_time_checked (p : tparams) (n : Z) (f : tfmt) : option Z :=
+  match f with
+  | EpochS => mul_checked n (mul_s p)
+  | EpochMs => mul_checked n (mul_ms p)
+  | _ => Some (int_time_to_micros p n f)
+  end.
+
 (* arrowTimestampToMicros (unit: 0 s, 1 ms, 2 us, 3 ns) *)
 Inductive tunit := USecond | UMilli | UMicro | UNano.
 Definition arrow_ts_to_micros (p : tparams) (v : Z) (u : tunit) : Z :=
@@ -104,6 +117,14 @@ Definition arrow_ts_to_micros (p : tparams) (v : Z) (u : tunit) : Z :=
   | UMilli => wrap64 (v * mul_ms p)
   | UMicro => v
   | UNano => Z.quot v (div_ns p)
+  end.
+
+(* arrowTimestampToMicrosChecked: used for the TIME column of a Parquet file *)
+Definition arrow_ts_checked (p : tparams) (v : Z) (u : tunit) : option Z :=
+  match u with
+  | USecond => mul_checked v (mul_s p)
+  | UMilli => mul_checked v (mul_ms p)
+  | _ => Some (arrow_ts_to_micros p v u)
   end.
 
 (* the exact (mathematical) scaling *)
@@ -148,7 +169,7 @@ Section Oracles.
         end
     | _ =>
         match (if has_dot s then None else parse_int s) with
-        | Some n => Some (int_time_to_micros p n f)
+        | Some n => int_time_checked p n f          (* an overflowing epoch is an error *)
         | None => fl_epoch s
         end
     end.
@@ -627,20 +648,22 @@ Fixpoint map_opt {A B} (f : A -> option B) (l : list A) : option (list B) :=
               end
   end.
 
-(* parquetColumnToTimeMicros.  [fl_bits]: floatTimeToMicros on float64 bits (None for NaN/Inf);
+(* parquetColumnToTimeMicros (after b90d6d7: timestamp and integer time values go through the
+   checked conversions, a uint64 above MaxInt64 is rejected).  [fl_bits]: floatTimeToMicros on float64 bits (None for NaN/Inf);
    [one] : oneTimeValueToMicros on text *)
 Definition pq_time (p : tparams) (f : tfmt) (fl_bits : Z -> option Z) (one : bytes -> option Z)
            (c : pqcol) : option (list Z) :=
   match c with
   | PTs u v => match all_some v with
-               | Some zs => Some (map (fun z => arrow_ts_to_micros p z u) zs)
+               | Some zs => map_opt (fun z => arrow_ts_checked p z u) zs
                | None => None
                end
   | PInt t v =>
       match t with
       | I64 | I32 | I16 | U64 | U32 =>
           match all_some v with
-          | Some zs => Some (map (fun z => int_time_to_micros p (arrow_int_to_int64 t z) f) zs)
+          | Some zs => map_opt (fun z => if two63 <=? z then None        (* uint64 above MaxInt64 *)
+                                         else int_time_checked p z f) zs
           | None => None
           end
       | _ => None                     (* Int8 / Uint8 / Uint16 are not accepted as a time column *)
@@ -780,6 +803,17 @@ Definition pq_has_underscore (c : pqcase) : bool :=
 Definition pq_has_big_uint64 (c : pqcase) : bool :=
   existsb (fun nc => match snd nc with
                      | PInt U64 v => existsb (fun o => match o with Some z => two63 <=? z | None => false end) v
+                     | _ => false
+                     end) (pq_cols (pc_req c)).
+(* a NON-time TIMESTAMP column (s / ms) whose exact microseconds do not fit int64: arrowColumnToTyped
+   still converts it with the unchecked arrowTimestampToMicros *)
+Definition pq_tscol_overflows (c : pqcase) : bool :=
+  existsb (fun nc => negb (bytes_eqb (fst nc) (pq_time_column (pc_req c))) &&
+                     match snd nc with
+                     | PTs u v => existsb (fun o => match o with
+                                                    | Some z => negb (in_int64b (match u with USecond => z * 1000000 | UMilli => z * 1000 | _ => 0 end))
+                                                    | None => false
+                                                    end) v
                      | _ => false
                      end) (pq_cols (pc_req c)).
 Definition pq_time_overflows (c : pqcase) : bool :=
